@@ -48,6 +48,20 @@ func compatible(items []Item) bool {
 			builtin = true
 		}
 	}
+	// a blocking receive after a send that may not have happened (select-send inside a conditional context) never
+	// returns natively: such chains are not programs of the family
+	condSend := false
+	for _, it := range items {
+		if it.Step.ID == "h.selSend" && it.Ctx != "straight" {
+			condSend = true
+		}
+		if it.Step.ID == "h.send" || (it.Step.ID == "h.selSend" && it.Ctx == "straight") {
+			condSend = false
+		}
+		if it.Step.ID == "h.recv" && condSend {
+			return false
+		}
+	}
 	return collide == "" || !builtin
 }
 
